@@ -105,7 +105,11 @@ func (e *Engine) valEq(a, b Value) *term.Term {
 		}
 		return r
 	case TimeV:
-		panic(pathEnd{kind: endInconclusive, msg: "== on abstract time.Time", site: e.where()})
+		y := b.(TimeV)
+		if x.Zero || y.Zero {
+			return term.Bool(x.Zero && y.Zero)
+		}
+		return term.Eq(x.NS, y.NS)
 	}
 	panic(internalf("valEq on %T", a))
 }
@@ -142,6 +146,9 @@ func (e *Engine) scalarBinop(op token.Token, xt types.Type, x, y *term.Term, yt 
 		}
 		if op == token.QUO {
 			if signed {
+				if inner := e.mulByConstNoOverflow(x, y); inner != nil {
+					return inner
+				}
 				return term.Bin(term.OpBvSdiv, x, y)
 			}
 			return term.Bin(term.OpBvUdiv, x, y)
@@ -181,10 +188,24 @@ func (e *Engine) scalarBinop(op token.Token, xt types.Type, x, y *term.Term, yt 
 			return term.Bin(term.OpBvAshr, x, cnt)
 		}
 		return term.Bin(term.OpBvLshr, x, cnt)
-	case token.EQL:
-		return term.Eq(x, y)
-	case token.NEQ:
-		return term.Not(term.Eq(x, y))
+	case token.EQL, token.NEQ:
+		r := term.Eq(x, y)
+		if signed && y.IsConst() && y.Val == 0 && x.Op == term.OpBvMul {
+			// c*t == 0  <=>  t == 0 when c != 0 and c*t cannot overflow
+			c := x.A
+			if !c.IsConst() {
+				c = x.B
+			}
+			if c.IsConst() && c.Val != 0 {
+				if inner := e.mulByConstNoOverflow(x, c); inner != nil {
+					r = term.Eq(inner, term.Const(inner.W, 0))
+				}
+			}
+		}
+		if op == token.NEQ {
+			return term.Not(r)
+		}
+		return r
 	case token.LSS:
 		if signed {
 			return term.Cmp(term.OpSlt, x, y)
@@ -583,7 +604,7 @@ func (e *Engine) next(x *ssa.Next, it *IterV) Value {
 				found = true
 				break
 			}
-			if c.K == en.K || sameConstKey(c.K, en.K) {
+			if sameConstKey(c.K, en.K) {
 				cur = c
 				found = true
 				break
@@ -594,11 +615,25 @@ func (e *Engine) next(x *ssa.Next, it *IterV) Value {
 		}
 		return TupleV{term.True, copyVal(cur.K), copyVal(cur.V)}
 	}
-	return TupleV{term.False, zero(tt.At(1).Type()), zero(tt.At(2).Type())}
+	return TupleV{term.False, zeroIfValid(tt.At(1).Type()), zeroIfValid(tt.At(2).Type())}
 }
 
 func sameConstKey(a, b Value) bool {
 	switch x := a.(type) {
+	case TimeV:
+		y, ok := b.(TimeV)
+		return ok && x.Zero == y.Zero && x.NS == y.NS
+	case *ArrayV:
+		y, ok := b.(*ArrayV)
+		if !ok || len(x.E) != len(y.E) {
+			return false
+		}
+		for i := range x.E {
+			if !sameConstKey(x.E[i], y.E[i]) {
+				return false
+			}
+		}
+		return true
 	case *term.Term:
 		y, ok := b.(*term.Term)
 		return ok && x == y
@@ -644,4 +679,68 @@ func (e *Engine) typeAssert(x *ssa.TypeAssert, v IfaceV) Value {
 		panic(pathEnd{kind: endPanic, msg: fmt.Sprintf("type assertion failed: %v is not %v", v.T, x.AssertedType), site: e.where()})
 	}
 	return res
+}
+
+func zeroIfValid(t types.Type) Value {
+	if b, ok := t.(*types.Basic); ok && b.Kind() == types.Invalid {
+		return term.False
+	}
+	return zero(t)
+}
+
+// mulByConstNoOverflow recognises x = c*t (signed, c a positive constant equal
+// to div) and returns t if the solver shows, under the current path
+// condition, that c*t cannot overflow (|t| <= MaxInt/c). This is what lets
+// the date kernels (t*100)/100 and t*100 == 0 be decided without handing a
+// 64-bit multiplication and division to the bit-blaster; the side condition
+// is a linear query.
+func (e *Engine) mulByConstNoOverflow(x, div *term.Term) *term.Term {
+	if x.Op != term.OpBvMul || !div.IsConst() || div.SignedVal() <= 1 {
+		return nil
+	}
+	var t *term.Term
+	switch {
+	case x.A.IsConst() && x.A.Val == div.Val:
+		t = x.B
+	case x.B.IsConst() && x.B.Val == div.Val:
+		t = x.A
+	default:
+		return nil
+	}
+	w := t.W
+	maxInt := int64(1)<<uint(w-1) - 1
+	m := maxInt / div.SignedVal()
+	inRange := term.And(term.Cmp(term.OpSle, term.Const(w, uint64(-m)), t), term.Cmp(term.OpSle, t, term.Const(w, uint64(m))))
+	if inRange.IsTrue() {
+		return t
+	}
+	if inRange.IsFalse() {
+		return nil
+	}
+	key := [2]int{t.ID, int(div.Val)}
+	if e.tpos < len(e.trace) {
+		// replay: the answer was recorded as a single-alternative decision
+		d := &e.trace[e.tpos]
+		if d.kind != 'm' {
+			panic(internalf("replay divergence: expected mul-range, trace has %c", d.kind))
+		}
+		e.assertDecision(e.tpos, term.True)
+		e.tpos++
+		if d.alts[0] == 1 {
+			return t
+		}
+		return nil
+	}
+	_ = key
+	ok := uint64(0)
+	if e.checkWith(term.Not(inRange)).String() == "unsat" {
+		ok = 1
+	}
+	e.trace = append(e.trace, decision{n: 1, alts: []uint64{ok}, kind: 'm'})
+	e.assertDecision(e.tpos, term.True)
+	e.tpos++
+	if ok == 1 {
+		return t
+	}
+	return nil
 }
